@@ -2,6 +2,7 @@ import SFV.Model.Net
 import SFV.Model.Exec
 import SFV.Model.TfMachine
 import SFV.Model.LoopComb
+import SFV.Model.LoopNet
 import SFV.Gen.StepGuards
 import SFV.Model.Proto
 open SFV SFV.Proto SFV.Net
@@ -13,6 +14,7 @@ open SFV SFV.Proto SFV.Net
 `status <spec>` -> `<node index>=<STATUS>,...`  final status of every node's step without failures
 `exec <spec> fail=<node index>` -> outcome of the executor protocol model (see SFV/Model/Exec.lean)
 `loopcomb <0|1|g> <port>*` (g = as extracted from the source) -> `done=..;deadlocked=..;unread=..` of the LoopCombinatorStep reading protocol (LoopComb) on real streams
+`loopnet <k> <counter> <limit>` -> `bodies=<body executions>;out=<loop output>` of the loop sub-network model (LoopNet)
 `tfm <port>*`   -> `out=<tags in firing order>;left=<partial groups left>` of the operational grouping loop (TfMachine)
 
 spec words: `n=<nports>` `s:<port>:<val>` `c:<port>` `tf:<fn>:<k>:<ins>/<outs>` `cond:<m>:<r>:<z|d>:<ins>/<outs>`
@@ -178,6 +180,28 @@ def handle : List String → String
           let s := go fuel (LoopComb.initSt streams)
           s!"done={if LoopComb.done s then 1 else 0};deadlocked={if LoopComb.deadlocked s then 1 else 0};unread={(s.ports.map (fun p => p.stream.length)).foldl (· + ·) 0}"
       | none => "bad-op"
+  | ["loopnet", k, c, l] =>
+      -- one loop instance through the loop sub-network model, first enabled action first
+      match k.toNat?, parseInt c, parseInt l with
+      | some k, some c, some l =>
+          let acts : List LoopNet.Act := [.combine 0, .eval 0, .body 0, .deliver 0 0, .emit 0]
+          let rec goLoopNet (fuel : Nat) (s : LoopNet.St) : LoopNet.St :=
+            match fuel with
+            | 0 => s
+            | f + 1 =>
+                match acts.findSome? (fun a => LoopNet.step s a) with
+                | some s' => goLoopNet f s'
+                | none => s
+          let s := goLoopNet (4 * (l - c).toNat + 8) (LoopNet.initSt k [(c, l)])
+          match s.insts with
+          | [x] =>
+              let out := match x.emitted with
+                | some (some v) => toString v
+                | some none => "none"
+                | none => "unfinished"
+              s!"bodies={x.collected.length};out={out}"
+          | _ => "bad-op"
+      | _, _, _ => "bad-op"
   | _ => "bad-op"
 
 def main : IO Unit := runPure handle
